@@ -1,4 +1,5 @@
 pub mod mock;
+pub mod closepoll;
 pub mod direct;
 pub mod ps;
 pub mod rr;
